@@ -45,7 +45,7 @@ PROPS = {
     "C13": {
         "engine": "e3",
         "quick": {"runs": 320000, "block": 5000, "wall": 75},
-        "thorough": {"runs": 1600000, "block": 10000, "wall": 540},
+        "thorough": {"runs": 8000000, "block": 20000, "wall": 540},
         "meta": {
             "rule": ("each evaluation is one seeded history of <=60 list operations on <=3 live AnnealResults with plain-list "
                      "shadows; a run is non-trivial if an empty receiver, an empty argument, a self-argument or the removal/"
@@ -72,8 +72,8 @@ PROPS = {
         "engine": "e4",
         "quick": {"stages": [{"variant": "sim", "runs": 32000, "block": 500, "wall": 35},
                              {"variant": "san", "runs": 32000, "block": 500, "wall": 45}]},
-        "thorough": {"stages": [{"variant": "sim", "runs": 200000, "block": 2000, "wall": 240},
-                                {"variant": "san", "runs": 120000, "block": 1000, "wall": 600}]},
+        "thorough": {"stages": [{"variant": "sim", "runs": 400000, "block": 2000, "wall": 280},
+                                {"variant": "san", "runs": 300000, "block": 1000, "wall": 600}]},
         "meta": E4_META,
     },
     "C05": {
